@@ -1767,3 +1767,16 @@ Proof. reflexivity. Qed.
 
 Lemma adopt_state_inv tf regs st : Inv tf regs st -> Inv tf regs (adopt_state st).
 Proof. apply dup_state_inv. Qed.
+
+(* hwloc_topology_restrict only shrinks the topology cpuset, so the cpukinds part
+   ([restrict_state] with the new root cpuset) only removes PUs from kinds *)
+Lemma topology_restrict_shrinks t set flags t' :
+  topology_restrict t set flags = Some t' -> bs_subset (t_cpuset t') (t_cpuset t) = true.
+Proof.
+  unfold topology_restrict. intros H.
+  repeat match type of H with
+  | context[if ?b then _ else _] => destruct b
+  | context[match ?l with [] => _ | _ :: _ => _ end] => destruct l
+  end; try discriminate; injection H as <-; simpl; apply bs_subset_spec; intros q;
+  rewrite ?mem_inter, ?mem_diff; intros Hq; try apply andb_true_iff in Hq; tauto.
+Qed.
